@@ -175,6 +175,11 @@ class World(HWorld):
                     kinds.append(kind)
                     st.fault(kind)
             self.deliver(cmd, key, claimed, nodes, kinds, repr(variant), true_root=root)
+        # the proof belongs to the caller now: scribbling over its node lists must not
+        # affect the trie (no aliasing of internal state)
+        for el in proof:
+            if isinstance(el, list):
+                el.clear()
         return f"proof:{len(proof)}"
 
     def apply_fault(self, f, nodes, claimed, key, root):
